@@ -166,7 +166,7 @@ def main():
         }],
         "checks": checks,
         "not_applicable": na,
-        "notes": "All checks are static: nothing in /repo is executed. Every check loads /repo's current working tree on every run and fails (exit 1) when the tree does not type-check, an anchor cannot be resolved, an obligation is undecided, or the checker panics.",
+        "notes": "All checks are static: nothing in /repo is executed. Every check loads /repo's current working tree on every run and fails (exit 1) when the tree does not type-check, an anchor cannot be resolved, an obligation is undecided, or the checker panics. Tiers: quick analyses the tree as built for the host (GOOS=linux); thorough repeats the same rules on the tree as built for windows and darwin and merges every obligation that is new or worse there, audits the committed tables for stale rows, and runs the sensitivity corpus (each committed mutant under /verif/mutants/<id>/ is applied as an in-memory overlay in a child process and must be reported; results are recorded in the evidence and printed, a missed mutant does not change the verdict on /repo).",
     }
     with open(os.path.join(HERE, "MANIFEST.json"), "w") as f:
         json.dump(m, f, indent=1)
